@@ -10,6 +10,8 @@ use rustc_span::def_id::DefId;
 pub enum Stop {
     Unsupported(String),
     Panic(String),
+    /// a panic raised by the roots crate's `maybe_unwind()` that is being unwound through the cleanup blocks of the frames below it
+    Unwind,
 }
 pub type R<T> = Result<T, Stop>;
 
